@@ -227,4 +227,19 @@ PROPS = {
                  'the convert model is compared with the real Convert on header projection, entries, tile data and metadata members, and the oracle re-derives the expected tile map from the rows.',
   'allowed_axioms': ['sig_not_dec', 'sig_forall_dec', 'functional_extensionality_dep', 'classic'],
  },
+ 'C16': {
+  'rule': 'regions: boxes (random and on tile edges of zooms 2..5 / the equator), convex and concave polygons, polygons with a hole, disjoint and overlapping multipolygons, long oblique quadrilaterals, as bbox text, '
+          'Polygon/MultiPolygon geometry, Feature and FeatureCollection, coordinates with four decimals; zoom 2..7 x minimum zoom 0..zoom through the exported region -> tile-ID-set computation; '
+          'end to end through Extract on a full source pyramid z0..3. Oracles with the harness\'s own Web-Mercator geometry over every tile of every zoom in range. All cases non-trivial; distinct by case line',
+  'trusted_base': ['orb (tilecover, planar point-in-polygon, Mercator projection, GeoJSON parsing): NOT verified; it enters the theorems as the boundary list and the inside predicate with the hypothesis H_cover; '
+                   'the harness checks both against its own geometry (edge sampling at 1/16 tile, even-odd ray casting, point-segment distances) on every case',
+                   'roaring64 bitmaps modelled as ascending duplicate-free lists', 'Flocq binary64 for the header bounds/centre (truncating int32(f*1e7) of the bounding box and of its float64 midpoint)'],
+  'assumptions': ['regions are simple and lie inside the Web-Mercator world (|lat| <= 84, |lon| < 180)',
+                  'region edges are straight in Web-Mercator (as orb rasterises and tests them), not geodesics or straight in lon/lat',
+                  'PARTIAL CLAIM: the metric clauses of the property (more than one finest-zoom tile inside / more than one tile width outside) are decided by the oracle on every case, not by a theorem; '
+                  'the theorems cover the fill, the propagation, parent closure and nearness in the ancestor sense'],
+  'explanation': 'see Properties/C16.v (C16_fill_exact with C16_separation from C01_adjacent, C16_relevant_spec, C16_cover_finest, C16_near, C16_parents); the model recomputes interior ranges and relevance set from the '
+                 'real boundary cover and the harness\'s own point-in-polygon answers and must agree with the real code; header bounds/centre are compared with the Flocq model.',
+  'allowed_axioms': ['sig_not_dec', 'sig_forall_dec', 'functional_extensionality_dep', 'classic'],
+ },
 }
